@@ -928,3 +928,27 @@ func tfdtTime(t *mp4.TfdtBox) uint64 { return t.BaseMediaDecodeTime() }
 //@   wiring
 //@   callsite calcCueItvls requires args: arg_segStart == int(baseMediaDecodeTime) && arg_segDur == int(dur) && arg_utcStart == int(utcTimeMS) && arg_cueDur == timeSubsDurMS
 //@   loop 1 invariant true
+
+// ---------------------------------------------------------------------------
+// C09 wiring of chunked delivery
+
+// sumChunkDurs: media duration of the first n chunks.
+func sumChunkDurs(chunks []chunk, n int) int {
+	if n <= 0 {
+		return 0
+	}
+	return sumChunkDurs(chunks, n-1) + int(chunks[n-1].dur)
+}
+
+//@ recursive sumChunkDurs
+
+// writeChunkedSegment: chunks are cut at segment duration minus the advertised
+// availabilityTimeOffset (a positive duration), and chunk k is released when the wall clock has
+// reached availabilityStartTime + segment start + the durations of chunks 0..k.
+//@ func writeChunkedSegment
+//@   wiring
+//@   requires cfg != nil && a != nil
+//@   callsite chunkSegment requires positive: arg_chunkDur > 0
+//@   callsite chunkSegment requires advertised: arg_chunkDur == (a.SegmentDurMS - int(cfg.AvailabilityTimeOffsetS*1000.0)) * int(so.meta.rep.MediaTimescale) / 1000 && arg_segMeta == so.meta && arg_seg == so.seg
+//@   loop 1 invariant true
+//@   loop 2 invariant 0 <= rangeidx && rangeidx <= len(chunks) && chunkAvailTime == int(so.meta.newTime) + cfg.StartTimeS*int(rep.MediaTimescale) + sumChunkDurs(chunks, rangeidx)
